@@ -24,6 +24,20 @@ suspected defect F9: `ConvertBase.cast` copies by row label):
   defaults_no_missing_values         no NaN / None in the fields the statement does not map (suspected F8: keysounds)
   metadata_title / _artist / _creator / _difficulty_name   wherever both games have the field
   source_untouched                   lists (values, order, fields) and metadata of the source are the same after the call
+  earlier_result_unchanged_by_later_call   a result still satisfies every clause above after the converter was called again (on the
+                                     same source / on another source): results of separate calls do not influence each other
+Two classes of source keep a clause of their own (one root cause each, so that `no_exception` stays exercised next to them):
+  no_exception_source_without_notes        some source chart has neither hits nor holds (the converters that derive the Quaver mode /
+                                     StepMania chart type from the highest USED column have nothing to derive it from)
+  no_exception_sm_type_without_key_count   SMToQua on a set with a chart type for which the library's public table
+                                     `SMMapChartTypes.get_keys` has no key count: it must not crash (TypeError ...), and must return
+                                     when raise_bad_mode=False was passed; a ValueError refusal otherwise is not a failure
+
+Source dimensions besides the histories (see `_content`, `_new_memory_bases`): each list empty on its own, charts with no tempo point /
+nothing at all, one-element lists, ties and boundary values, int-typed columns, numpy scalars, 4 and 7 keys, every StepMania chart
+type (with and without a key count in reamber's table), sets of 0..5 charts with empty charts first / in the middle / only,
+metadata with format separators, double-byte punctuation, empty strings; every optional argument (move_right_by, raise_bad_mode);
+calls through the class and through an instance; the same source converted twice, another source converted in between.
 """
 from __future__ import annotations
 
@@ -104,7 +118,28 @@ META = {
     "ascii": dict(title="Title of 1 Song", artist="The Artist", creator="mapper_01", diff="Insane 4K"),
     # shift_jis-encodable, so that every target (BMS stores shift_jis bytes) can hold it
     "kana": dict(title="曲の名前", artist="アーティスト", creator="譜面", diff="難"),
+    # separators of the five file formats and white space INSIDE the values (nothing is parsed on the way: a converter copies)
+    "punct": dict(title="Re:Start, #1 // mix; [a=b] 100% |x|", artist="A  B\tC & D", creator="x:y,z", diff="7K [Lv.12] ~ Another: #2"),
+    # shift_jis double-byte punctuation: wave dash U+301C, ideographic space U+3000, full-width forms, half-width katakana
+    "wide": dict(title="\u301c夜\u3000明け\u301c", artist="ｆｕｌｌ\u3000ｗｉｄｔｈ", creator="ﾊﾝｶｸ", diff="ＡＮＯＴＨＥＲ！"),
+    # every text field empty
+    "blank": dict(title="", artist="", creator="", diff=""),
 }
+
+# number of columns per StepMania chart type (StepMania's StepsType table; only used to place objects in legal columns)
+SM_TYPE_KEYS = {
+    "dance-single": 4, "dance-double": 8, "dance-solo": 6, "dance-couple": 8, "dance-threepanel": 3, "dance-routine": 8,
+    "pump-single": 5, "pump-halfdouble": 6, "pump-double": 10, "pump-couple": 10, "pump-routine": 10, "kb7-single": 7,
+    "kickbox-human": 4, "kickbox-quadarm": 4, "kickbox-insect": 6, "kickbox-arachnid": 8, "para-single": 5,
+    "bm-single5": 6, "bm-versus5": 6, "bm-double5": 12, "bm-single7": 8, "bm-double7": 16, "bm-versus7": 8,
+    "ez2-single": 5, "ez2-double": 10, "ez2-real": 7, "pnm-five": 5, "pnm-nine": 9,
+    "techno-single4": 4, "techno-single5": 5, "techno-single8": 8, "techno-double4": 8, "techno-double5": 10, "techno-double8": 16,
+    "ds3ddx-single": 8, "maniax-single": 4, "maniax-double": 8,
+    # not in reamber's table: a StepMania type it does not list, and a made-up one
+    "lights-cabinet": 8, "xx-unknown": 4,
+}
+# key counts a target game can hold (osu!mania 1-18, Quaver 4 and 7, BMS up to 2 x (7 + scratch), O2Jam 7)
+TARGET_KEYS = {"osu": set(range(1, 19)), "quaver": {4, 7}, "sm": set(SM_TYPE_KEYS.values()), "bms": set(range(1, 17)), "o2jam": {7}}
 
 
 def _content(variant, keys, k=0):
@@ -125,6 +160,54 @@ def _content(variant, keys, k=0):
         holds = []
         bpms = [(-10.0, 60.0)]
         svs = []
+    # ---- each list empty on its own, empty charts, one-element lists
+    elif variant == "hits_only":
+        hits = [(0.0, 0), (250.0 + k, 1 % keys), (250.0 + k, top), (999.999, top)]
+        holds = []
+        bpms = [(0.0, 150.0), (480.0, 75.0 + k)]
+        svs = [(0.0, 1.0)]
+    elif variant == "holds_only":
+        hits = []
+        holds = [(0.0, 0, 125.5), (300.0 + k, top, 0.0), (300.0 + k, 1 % keys, 1000.0), (2000.0, top, 62.5)]
+        bpms = [(0.0, 200.0)]
+        svs = [(100.0, 0.75), (200.0, 1.25)]
+    elif variant == "no_notes":
+        hits, holds = [], []
+        bpms = [(0.0, 120.0), (2000.0, 60.0 + k)]
+        svs = [(0.0, 2.0)]
+    elif variant == "no_tempo":
+        hits = [(10.0, 0), (20.0 + k, top)]
+        holds = [(30.0, top, 5.0)]
+        bpms = []
+        svs = []
+    elif variant == "empty":
+        hits, holds, bpms, svs = [], [], [], []
+    elif variant == "single":
+        hits = [(123.456 + k, top)]
+        holds = [(789.0, top, 10.0)]
+        bpms = [(5.0, 140.0)]
+        svs = [(5.0, 0.8)]
+    # ---- ties and boundaries: coincident objects / tempo points / SVs with different values, duplicates, time 0, end == start,
+    #      a hold ending exactly at 0, negative and very large times, values needing more than 6 significant digits, extreme SVs
+    elif variant == "ties":
+        hits = [(0.0, 0), (0.0, top), (1234567.891, 1), (1234567.891, 1), (-0.5, top), (-3600000.0, 0), (86400000.125, top), (0.001, top)]
+        holds = [(0.0, 1, 0.0), (1000.0, top, 0.001), (1000.0, top, 250.0), (-2000.0, 0, 2000.0), (7654321.987, top, 3600000.5), (7654321.987, 0, 3600000.5)]
+        bpms = [(0.0, 120.0), (0.0, 240.0), (1000.0, 173.33333333333334), (1000.0, 60.0), (1234567.891, 0.5 + k), (-5000.0, 1000000.0)]
+        svs = [(0.0, 1.0), (0.0, 0.01), (1000.0, -1.0), (1000.0, 0.0), (2000.0, 10.5), (1234567.891, 1.123456789), (-5000.0, 1.0)]
+    # ---- whole numbers given as python ints (int-typed columns where the list class keeps them)
+    elif variant == "ints":
+        hits = [(0, 0), (500, 1), (500, top), (-250, top), (4000 + k, top)]
+        holds = [(1000, 0, 500), (1500, top, 0), (3000 + k, top, 125)]
+        bpms = [(0, 120), (2000, 60 + k), (-1000, 240)]
+        svs = [(0, 1), (2000, 2)]
+    # ---- values given as numpy scalars of several widths
+    elif variant == "numpy":
+        import numpy as np
+
+        hits = [(np.float64(0.0), np.int64(0)), (np.float32(250.5), np.int32(1)), (np.int64(500 + k), np.int8(top)), (np.float64(1e-3), np.uint8(top))]
+        holds = [(np.float64(100.25), np.int64(0), np.float32(0.5)), (np.int32(1000), np.int16(top), np.int64(250 + k))]
+        bpms = [(np.float64(0.0), np.float32(120.5)), (np.int64(2000), np.int64(60 + k))]
+        svs = [(np.float32(0.0), np.float64(1.25)), (np.int64(10), np.int64(2))]
     else:
         raise ValueError(variant)
     return dict(hits=hits, holds=holds, bpms=bpms, svs=svs)
@@ -153,12 +236,15 @@ def _fill_chart(chart, content, sv):
     return chart
 
 
-def _build_memory(game, variant, meta):
+def _build_memory(game, variant, meta, keys=None, charts=None):
+    """`keys`: key count of the chart of a single-chart game (default 4; the last rows use the highest column).
+    `charts`: for the two set games, a list of [variant, StepMania chart type or None] replacing the default layout of the set
+    (any number of charts for StepMania, three for O2Jam)."""
     g = _game(game)
     md = META[meta]
     enc = (lambda s: s.encode("shift_jis")) if game == "bms" else (lambda s: s)
     if not g["multi"]:
-        keys = 4
+        keys = keys or 4
         m = _fill_chart(g["chart"](), _content(variant, keys), g["sv"])
         m.title, m.artist = enc(md["title"]), enc(md["artist"])
         if game == "osu":
@@ -167,7 +253,7 @@ def _build_memory(game, variant, meta):
         elif game == "quaver":
             from reamber.quaver.QuaMapMeta import QuaMapMode
 
-            m.creator, m.difficulty_name, m.mode = md["creator"], md["diff"], QuaMapMode.KEYS_4
+            m.creator, m.difficulty_name, m.mode = md["creator"], md["diff"], {4: QuaMapMode.KEYS_4, 7: QuaMapMode.KEYS_7}[keys]
         elif game == "bms":
             m.version = enc(md["diff"])
         return m
@@ -177,17 +263,37 @@ def _build_memory(game, variant, meta):
         from reamber.sm.SMMapMeta import SMMapDifficulty
 
         s.credit, s.offset = md["creator"], 0.0
-        charts = []
-        for k, (v, d) in enumerate(zip([variant, "unsorted" if variant != "unsorted" else "full"], [SMMapDifficulty.HARD, SMMapDifficulty.CHALLENGE])):
-            c = _fill_chart(g["chart"](), _content(v, 4, k), False)
-            c.difficulty, c.difficulty_val = d, 9 + k
-            charts.append(c)
-        s.maps = charts
+        out = []
+        if charts is None:
+            for k, (v, d) in enumerate(zip([variant, "unsorted" if variant != "unsorted" else "full"], [SMMapDifficulty.HARD, SMMapDifficulty.CHALLENGE])):
+                c = _fill_chart(g["chart"](), _content(v, 4, k), False)
+                c.difficulty, c.difficulty_val = d, 9 + k
+                out.append(c)
+        else:
+            diffs = [SMMapDifficulty.BEGINNER, SMMapDifficulty.EASY, SMMapDifficulty.MEDIUM, SMMapDifficulty.HARD, SMMapDifficulty.CHALLENGE, SMMapDifficulty.EDIT]
+            for k, (v, typ) in enumerate(charts):
+                c = _fill_chart(g["chart"](), _content(v, SM_TYPE_KEYS.get(typ, 4), k), False)
+                c.chart_type, c.difficulty, c.difficulty_val = typ, diffs[k % 6], 1 + 3 * k
+                c.description = f"chart {k} of {len(charts)}"
+                out.append(c)
+        s.maps = out
     else:
         s.creator = md["creator"]
         s.level = [3, 17, 42, 0]
-        s.maps = [_fill_chart(g["chart"](), _content(v, 7, k), False) for k, v in enumerate([variant, "unsorted" if variant != "unsorted" else "full", "full" if variant == "sparse" else "sparse"])]
+        vs = [v for v, _ in charts] if charts is not None else [variant, "unsorted" if variant != "unsorted" else "full", "full" if variant == "sparse" else "sparse"]
+        s.maps = [_fill_chart(g["chart"](), _content(v, 7, k), False) for k, v in enumerate(vs)]
     return s
+
+
+def _source_keys(game, base):
+    """Key counts of the charts of an in-memory source (None for a fixture: not known without reading reamber's own fields)."""
+    if base["kind"] != "memory":
+        return None
+    if game == "sm":
+        return [SM_TYPE_KEYS.get(t, 4) for _, t in base["charts"]] if base.get("charts") is not None else [4, 4]
+    if game == "o2jam":
+        return [7]
+    return [base.get("keys") or 4]
 
 
 _FIXTURES = {}
@@ -210,6 +316,9 @@ def _charts(game, src):
 # ----------------------------------------------------------------------------- histories
 
 OPS = ["filter", "sort_reverse", "append", "stack", "rate", "deepcopy"]
+# further producers of row-label states: ascending sort (labels permuted when the rows were not in time order), an append that
+# sorts (the new row lands in the middle), a filter that takes a middle row out of EVERY list (a gap inside the labels)
+OPS_EXTRA = ["sort", "append_sort", "filter_middle"]
 
 
 def _apply_op(game, src, op):
@@ -237,6 +346,17 @@ def _apply_op(game, src, op):
                     it = L[n - 1]
                     it.offset = float(max(L.offset)) + 10.0
                     setattr(c, k, L.append(it))
+            elif op == "sort":
+                if n:
+                    setattr(c, k, L.sorted())
+            elif op == "append_sort":
+                if n and k in ("hits", "holds", "bpms", "svs"):
+                    it = L[n - 1]
+                    it.offset = (float(min(L.offset)) + float(max(L.offset))) / 2 + 0.125
+                    setattr(c, k, L.append(it, sort=True))
+            elif op == "filter_middle":
+                if n >= 3:
+                    setattr(c, k, L[np.arange(n) != n // 2])  # never the last row: the key count stays
             elif op == "filter":
                 if n < 2:
                     continue
@@ -376,7 +496,7 @@ def _build_source(case):
     game = case["src"]
     b = case["base"]
     if b["kind"] == "memory":
-        src = _build_memory(game, b["variant"], b["meta"])
+        src = _build_memory(game, b["variant"], b["meta"], keys=b.get("keys"), charts=b.get("charts"))
     else:
         src = _load_fixture(game, b["path"])
     for op in case["ops"]:
@@ -397,21 +517,39 @@ def _run_case(case, src=None):
         logging.disable(prev)
 
 
-def _run_case_inner(case, src):
-    conv = _converters()[case["converter"]]
-    sgame, tgame, fn, shift_name = conv
-    gs, gt = _game(sgame), _game(tgame)
-    if src is None:
-        src = _build_source(case)
-    failed = []
-    args = dict(case.get("args") or {})
-    shift = 0
-    if shift_name:
-        shift = args[shift_name] if shift_name in args else inspect.signature(fn).parameters[shift_name].default
+_CONV_CACHE = {}
+_PROTO_CACHE = {}
+
+
+def _conv(name):
+    if not _CONV_CACHE:
+        _CONV_CACHE.update(_converters())
+    return _CONV_CACHE[name]
+
+
+def _proto_lists(tgame):
+    """list name -> list class of a freshly constructed chart of the target game."""
+    if tgame not in _PROTO_CACHE:
+        _PROTO_CACHE[tgame] = {k: type(L) for k, L in _game(tgame)["chart"]().objs.items()}
+    return _PROTO_CACHE[tgame]
+
+
+def _callable(case):
+    """The converter as the case calls it: through the class (default) or through an instance of it."""
+    sgame, tgame, fn, shift_name = _conv(case["converter"])
+    if case.get("call") == "instance":
+        import reamber.algorithms.convert as C
+
+        cname, _, meth = case["converter"].partition(".")
+        fn = getattr(getattr(C, cname)(), meth or "convert")
+    return fn
+
+
+def _expectations(sgame, src):
+    """What the source holds right now, read positionally: (charts, per-chart content, per-chart metadata, relabelled?)."""
+    gs = _game(sgame)
     charts = _charts(sgame, src)
     relabelled = any(not _default_labels(L) for c in charts for L in c.objs.values())
-    sfx = "_after_relabel" if relabelled else ""
-    # what the source holds, read positionally
     want = []
     for c in charts:
         w = dict(hits=_tuples(c.hits, ["offset", "column"]), holds=_tuples(c.holds, ["offset", "column", "length"]), bpms=_tuples(c.bpms, ["offset", "bpm"]))
@@ -426,35 +564,25 @@ def _run_case_inner(case, src):
         wm["diff"] = gs["diff"](src, c) if gs["diff"] else None
         wm["diff_contains"] = gs["diff_src"](src, c) if gs.get("diff_src") else None
         want_meta.append(wm)
-    snap = _snapshot(sgame, src)
+    return charts, want, want_meta, relabelled
 
-    try:
-        res = fn(src, **args)
-    except Exception as ex:  # noqa
-        msg = f"{type(ex).__name__}: {ex}"
-        if isinstance(ex, ValueError) and "supported" in str(ex) and case["base"]["kind"] == "fixture":
-            return "skip:" + msg
-        d = _snapshot_diff(sgame, src, snap)
-        if d:
-            failed.append(("source_untouched", d))
-        return [("no_exception", f"{case['converter']} raised {msg}")] + failed
 
-    d = _snapshot_diff(sgame, src, snap)
-    if d:
-        failed.append(("source_untouched", d))
-
+def _check_result(sgame, tgame, res, n_charts, want, want_meta, sfx, shift, content_only=False):
+    """The statement's clauses about one returned value: [(what, detail)] (not de-duplicated)."""
+    gs, gt = _game(sgame), _game(tgame)
+    failed = []
     flat = _flatten_result(tgame, res)
     if flat is None:
         failed.append(("target_chart_types", f"result {type(res).__name__} is not made of {gt['container'].__name__}"))
         return failed
-    if len(flat) != len(charts):
-        failed.append(("one_chart_per_source_chart", f"{len(flat)} target charts for {len(charts)} source charts"))
-    proto = gt["chart"]()
+    if len(flat) != n_charts:
+        failed.append(("one_chart_per_source_chart", f"{len(flat)} target charts for {n_charts} source charts"))
+    proto = _proto_lists(tgame)
     for i, (holder, tc) in enumerate(flat):
         # --- chart and list classes of the target game
-        bad = [f"{k}: {type(L).__name__}" for k, L in tc.objs.items() if k in proto.objs and type(L) is not type(proto.objs[k])]
-        if set(tc.objs) != set(proto.objs):
-            bad.append(f"lists {sorted(tc.objs)} vs declared {sorted(proto.objs)}")
+        bad = [f"{k}: {type(L).__name__}" for k, L in tc.objs.items() if k in proto and type(L) is not proto[k]]
+        if set(tc.objs) != set(proto):
+            bad.append(f"lists {sorted(tc.objs)} vs declared {sorted(proto)}")
         if bad:
             failed.append(("target_chart_types", f"chart {i}: {bad}"))
         # --- declared fields only, no missing values in the fields the statement does not map
@@ -471,7 +599,7 @@ def _run_case_inner(case, src):
                 nn = sum(1 for v in vals if _isnan(v))
                 if nn:
                     failed.append(("defaults_no_missing_values" + sfx, f"chart {i}.{k}.{cname}: {nn} of {len(vals)} values missing (declared default {type(L).props().defaults[decl.index(cname)]!r})"))
-        if len(flat) != len(charts):
+        if len(flat) != n_charts:
             continue
         w = want[i]
         # --- content
@@ -515,6 +643,90 @@ def _run_case_inner(case, src):
             elif wm["diff_contains"] is not None:
                 if not isinstance(got, str) or wm["diff_contains"] not in got:
                     failed.append(("metadata_difficulty_name", f"chart {i}: target difficulty name {got!r} does not carry the source's {wm['diff_contains']!r}"))
+    return failed
+
+
+def _run_case_inner(case, src):
+    sgame, tgame, _fn, shift_name = _conv(case["converter"])
+    fn = _callable(case)
+    if src is None:
+        src = _build_source(case)
+    failed = []
+    args = dict(case.get("args") or {})
+    shift = 0
+    if shift_name:
+        shift = args[shift_name] if shift_name in args else inspect.signature(_fn).parameters[shift_name].default
+    charts, want, want_meta, relabelled = _expectations(sgame, src)
+    sfx = "_after_relabel" if relabelled else ""
+    keys = _source_keys(sgame, case["base"])
+    holdable = keys is not None and all(k in TARGET_KEYS[tgame] for k in keys)
+    # a source that gives no key count at all (no notes, or no chart): *ToSM / *ToQua have nothing to derive the mode from
+    snap = _snapshot(sgame, src)
+
+    try:
+        res = fn(src, **args)
+    except Exception as ex:  # noqa
+        msg = f"{type(ex).__name__}: {ex}"
+        refusal = isinstance(ex, ValueError) and "supported" in str(ex)
+        if refusal and case["base"]["kind"] == "fixture":
+            return "skip:" + msg
+        if keys is not None and not holdable and args.get("raise_bad_mode", True) is not False:
+            # the target game cannot hold a chart with that many keys: whether / how a converter refuses it is not stated
+            return "skip:" + f"{tgame} cannot hold {sorted(set(k for k in keys if k not in TARGET_KEYS[tgame]))} keys: " + msg
+        d = _snapshot_diff(sgame, src, snap)
+        if d:
+            failed.append(("source_untouched", d))
+        what = "no_exception"
+        if sgame == "sm" and tgame == "quaver":
+            from reamber.sm.SMMapMeta import SMMapChartTypes
+
+            # a class of its own (one root cause): StepMania chart types for which the library's public table has no key count
+            nokeys = sorted({str(c.chart_type) for c in charts if SMMapChartTypes.get_keys(c.chart_type) is None})
+            if nokeys and refusal and args.get("raise_bad_mode", True) is not False:
+                # the library does not know these types' key count, so it cannot name a Quaver mode: a refusal (ValueError
+                # '... isn't supported') is the unsupported-mode behaviour, which the statement does not regulate
+                return "skip:" + msg
+            if nokeys:
+                what, msg = "no_exception_sm_type_without_key_count", msg + f" (chart types without a key count in SMMapChartTypes.get_keys: {nokeys}; raise_bad_mode={args.get('raise_bad_mode', 'omitted')})"
+        if what == "no_exception" and any(not len(c.hits) and not len(c.holds) for c in charts):
+            # a class of its own (one root cause): a source chart without any note gives the converters that derive the
+            # mode / chart type from the highest used column nothing to derive it from
+            what, msg = "no_exception_source_without_notes", msg + f" (source charts without notes: {[i for i, c in enumerate(charts) if not len(c.hits) and not len(c.holds)]}; raise_bad_mode={args.get('raise_bad_mode', 'omitted')})"
+        return [(what, f"{case['converter']} raised {msg}")] + failed
+
+    d = _snapshot_diff(sgame, src, snap)
+    if d:
+        failed.append(("source_untouched", d))
+    failed += _check_result(sgame, tgame, res, len(charts), want, want_meta, sfx, shift)
+
+    # ---- repetition: the same source converted a second time; another source converted in between.  The second result
+    #      must satisfy every clause like the first, and the first result must still be what it was (its own clause).
+    later = []
+    if case.get("again"):
+        try:
+            res2 = fn(src, **args)
+        except Exception as ex:  # noqa
+            failed.append(("no_exception", f"{case['converter']} raised {type(ex).__name__}: {ex} when called a second time on the same source"))
+            res2 = None
+        if res2 is not None:
+            d = _snapshot_diff(sgame, src, snap)
+            if d:
+                failed.append(("source_untouched", "after the second call on the same source: " + d))
+            failed += [(w, "second call on the same source: " + dt) for w, dt in _check_result(sgame, tgame, res2, len(charts), want, want_meta, sfx, shift)]
+            later.append("a second call on the same source")
+    if case.get("then"):
+        other = _build_source(dict(src=sgame, base=case["then"]["base"], ops=case["then"].get("ops", [])))
+        try:
+            fn(other, **args)
+            later.append(f"a call on another source ({case['then']['base'].get('variant') or os.path.basename(case['then']['base'].get('path', ''))})")
+        except Exception:  # noqa  (that call is another case's business)
+            pass
+    if later:
+        before = {w for w, _ in failed}
+        for w, dt in _check_result(sgame, tgame, res, len(charts), want, want_meta, sfx, shift):
+            if w not in before:
+                failed.append(("earlier_result_unchanged_by_later_call", f"after {' and '.join(later)} the first result fails {w}: {dt}"))
+                break
     seen, uniq = set(), []
     for wht, dt in failed:
         if wht not in seen:
@@ -535,9 +747,59 @@ QUICK_FIXTURES = {
 
 
 def _arg_variants(conv_name, shift_name, fn):
-    if not shift_name:
-        return [{}]
-    return [{}, {shift_name: 0}, {shift_name: 1}, {shift_name: 3}]
+    """Every optional argument of the converter with its default (omitted), the default given explicitly, and other values."""
+    out = [{}]
+    params = inspect.signature(fn).parameters
+    if shift_name:
+        out += [{shift_name: 0}, {shift_name: 1}, {shift_name: 3}, {shift_name: 8}]
+    if "raise_bad_mode" in params:
+        out += [{"raise_bad_mode": True}, {"raise_bad_mode": False}]
+    return out
+
+
+def _other_arguments(fn, shift_name):
+    return [n for n in list(inspect.signature(fn).parameters)[1:] if n not in (shift_name, "raise_bad_mode")]
+
+
+NEW_VARIANTS = ["hits_only", "holds_only", "no_notes", "no_tempo", "empty", "single", "ties", "ints", "numpy"]
+
+
+def _new_memory_bases(game, rng):
+    """In-memory sources along the dimensions the three original ones hold fixed: each list empty on its own / empty charts /
+    one-element lists, ties and boundary values, int-typed columns, 7 keys, every StepMania chart type, sets of 0 / 1 / 5 charts
+    with an empty chart in the middle, metadata with separators, double-byte punctuation, empty strings."""
+    mk = lambda **kw: dict(kind="memory", **kw)  # noqa
+    wide = "wide" if game != "bms" else "punct"  # what non-ASCII BMS text becomes elsewhere is not stated
+    if not _game(game)["multi"]:
+        out = [mk(variant=v, meta="ascii") for v in NEW_VARIANTS]
+        out += [mk(variant="full", meta="ascii", keys=7), mk(variant="unsorted", meta="punct", keys=7), mk(variant="ties", meta=wide, keys=7)]
+        out += [mk(variant="sparse", meta="blank"), mk(variant="full", meta="punct"), mk(variant="hits_only", meta=wide)]
+        return out
+    if game == "o2jam":
+        sets = [["hits_only", "no_notes", "holds_only"], ["full", "empty", "unsorted"], ["ties", "single", "ints"], ["no_tempo", "numpy", "full"], ["empty", "empty", "empty"]]
+        out = [mk(variant="set", meta="ascii", charts=[[v, None] for v in vs]) for vs in sets]
+        out += [mk(variant="full", meta="punct"), mk(variant="sparse", meta=wide), mk(variant="unsorted", meta="blank")]
+        return out
+    # StepMania: any number of charts, any chart type
+    ds, kb = "dance-single", "kb7-single"
+    out = [
+        mk(variant="set", meta="ascii", charts=[]),
+        mk(variant="set", meta="ascii", charts=[["full", ds]]),
+        mk(variant="set", meta="ascii", charts=[["full", ds], ["empty", ds], ["unsorted", kb], ["no_notes", "dance-solo"], ["holds_only", "dance-double"]]),
+        mk(variant="set", meta="ascii", charts=[["hits_only", ds], ["holds_only", kb], ["no_tempo", ds], ["single", kb]]),
+        mk(variant="set", meta="punct", charts=[["ties", ds], ["ints", kb], ["numpy", kb]]),
+        mk(variant="set", meta="ascii", charts=[["empty", ds], ["empty", ds]]),
+        mk(variant="full", meta=wide),
+        mk(variant="sparse", meta="blank"),
+    ]
+    # every chart type of the table (those reamber has a key count for and those it has none for), 5 per set, in seeded order
+    # (the types Quaver can hold, 4 and 7 keys, in sets of their own so that SMToQua has to convert them)
+    cyc = ["full", "unsorted", "hits_only", "sparse", "single"]
+    for types in ([t for t in sorted(SM_TYPE_KEYS) if SM_TYPE_KEYS[t] in TARGET_KEYS["quaver"]], [t for t in sorted(SM_TYPE_KEYS) if SM_TYPE_KEYS[t] not in TARGET_KEYS["quaver"]]):
+        rng.shuffle(types)
+        for i in range(0, len(types), 5):
+            out.append(mk(variant="set", meta="ascii", charts=[[cyc[(i + j) % 5], t] for j, t in enumerate(types[i : i + 5])]))
+    return out
 
 
 def _from_game(game):
@@ -548,6 +810,7 @@ def _from_game(game):
         if rep.tier == "quick":
             paths = [p for p in paths if os.path.relpath(p, MAPS) in QUICK_FIXTURES[game]]
         bases = [dict(kind="memory", variant=v, meta=m) for v, m in (("full", "ascii"), ("unsorted", "kana" if game != "bms" else "ascii"), ("sparse", "ascii"))]
+        new_bases = _new_memory_bases(game, rng)
         unreadable = []
         for p in paths:
             try:
@@ -563,55 +826,98 @@ def _from_game(game):
             except Exception as ex:  # noqa  (reading is another property's business)
                 unreadable.append(f"{os.path.basename(p)}: {type(ex).__name__}")
         n_random = rep.n(8, 60)
+        singles = OPS + OPS_EXTRA
+        n_new_single, n_new_pair = rep.n(1, len(singles)), rep.n(1, 6)
         rep.bound = (
             f"converters {sorted(convs)} x sources of {game}: 3 charts built from objects (full / unsorted / sparse, ASCII and shift_jis-encodable metadata) + "
             f"{len(bases) - 3} fixtures read from rsc/maps ({', '.join(os.path.basename(b['path']) for b in bases if b['kind'] == 'fixture')}) x "
-            f"histories: every sequence of <= 2 operations over {OPS} (43) + {n_random} seeded sequences of 3; explicit column shift 0/1/3 and the default where the converter has one"
+            f"histories: every sequence of <= 2 operations over {OPS} (43) + {n_random} seeded sequences of 3 over {singles}; "
+            f"+ {len(new_bases)} further sources built from objects x (no history, {n_new_single} seeded single operations and {n_new_pair} seeded pairs over {singles}): "
+            f"charts with {NEW_VARIANTS} content (each list empty on its own, no tempo point, nothing at all, one-element lists; coincident hits / holds / tempo points / SVs with "
+            "different values, duplicates, time 0, zero-length holds, a hold ending at 0, negative and > 1e7 ms times, 10-significant-digit values, SV multipliers 0 / negative / > 10; int-typed columns; numpy scalars of several widths), "
+            "4 and 7 keys, metadata with ':' ',' '#' '//' ';' tab and double spaces / wave dash, ideographic space, full-width and half-width forms / empty strings"
+            + (f", StepMania sets of 0, 1, 2, 3, 4, 5 charts (empty charts first, in the middle, only) and every chart type of {sorted(SM_TYPE_KEYS)}" if game == "sm" else "")
+            + (", O2Jam sets with an empty / note-less / tempo-less chart first, in the middle, last, only" if game == "o2jam" else "")
+            + "; arguments: omitted, explicit column shift 0/1/3/8, raise_bad_mode True/False where the converter has them (all on the no-history sources built from objects, one seeded choice elsewhere); "
+            "seeded 15% of the cases call through an instance of the converter class, 10% convert the same source twice, 8% convert another source in between and re-read the first result"
         )
-        rep.rule = "a case is (converter, arguments, base chart, history); non-trivial when the history has at least one operation"
+        rep.rule = "a case is (converter, arguments, way of calling, base chart, history, repetition); non-trivial when the history has at least one operation"
+        rep.extra["arguments_not_varied"] = {n: _other_arguments(c[2], c[3]) for n, c in convs.items() if _other_arguments(c[2], c[3])}
         skipped = {}
-        stop = False
-        for base in bases:
-            for ops in _histories(rng, n_random):
-                if rep.out_of_time(45, 600):
-                    rep.extra["stopped_early"] = True
-                    stop = True
-                    break
-                proto = dict(src=game, base=base, ops=ops)
-                try:
-                    logging.disable(logging.WARNING)
-                    with warnings.catch_warnings():
-                        warnings.simplefilter("ignore")
-                        src0 = _build_source(proto)
-                except Exception as ex:  # noqa  (the history operations are other properties' business)
-                    k = f"history failed: {type(ex).__name__}"
-                    skipped[k] = skipped.get(k, 0) + 1
-                    continue
-                finally:
-                    logging.disable(logging.NOTSET)
-                for name, (sg, tg, f, shift_name) in sorted(convs.items()):
-                    variants = _arg_variants(name, shift_name, f)
-                    if base["kind"] == "fixture" or ops:
-                        # the shift variants are exercised on the in-memory charts with no history; elsewhere one seeded choice
-                        variants = [variants[rng.randrange(len(variants))]]
-                    for args in variants:
-                        case = dict(proto, converter=name, args=args)
-                        # the converter must leave the source untouched (checked), so one source serves all of them
-                        r = _run_case(case, src=src0)
-                        if isinstance(r, str):
-                            skipped[r[:80]] = skipped.get(r[:80], 0) + 1
-                            continue
-                        rep.case(case, nontrivial=bool(ops))
-                        for what, d in r:
-                            rep.fail(what, case, d)
-                            cnt = rep.extra.setdefault("failing_cases_by_clause", {})
-                            cnt[what] = cnt.get(what, 0) + 1
-                            byc = rep.extra.setdefault("failing_converters_by_clause", {})
-                            byc.setdefault(what, [])
-                            if name not in byc[what]:
-                                byc[what].append(name)
-            if stop:
+        dims = rep.extra.setdefault("cases_by_dimension", {})
+
+        def work():
+            """(phase, base, history, all argument variants?) in an order that spreads a truncated run over every source."""
+            for base in bases + new_bases:
+                yield "1 every source, no history", base, [], base["kind"] == "memory"
+            for base in new_bases:
+                hs = [[op] for op in rng.sample(singles, n_new_single)] + [[rng.choice(singles), rng.choice(singles)] for _ in range(n_new_pair)]
+                for ops in hs:
+                    yield "2 further sources, seeded histories", base, ops, False
+            for a in OPS:
+                for base in bases:
+                    yield "3 original sources, one operation", base, [a], False
+            for a in OPS:
+                for b in OPS:
+                    for base in bases:
+                        yield "4 original sources, two operations", base, [a, b], False
+            for _ in range(n_random):
+                for base in bases:
+                    yield "5 original sources, three seeded operations", base, [rng.choice(singles) for _ in range(3)], False
+
+        done = rep.extra.setdefault("source_states_done_by_phase", {})
+        for phase, base, ops, all_args in work():
+            if rep.out_of_time(45, 600):
+                rep.extra["stopped_early"] = f"in phase {phase}"
                 break
+            done[phase] = done.get(phase, 0) + 1
+            proto = dict(src=game, base=base, ops=ops)
+            try:
+                logging.disable(logging.WARNING)
+                with warnings.catch_warnings():
+                    warnings.simplefilter("ignore")
+                    src0 = _build_source(proto)
+            except Exception as ex:  # noqa  (the history operations are other properties' business)
+                k = f"history failed: {type(ex).__name__}"
+                skipped[k] = skipped.get(k, 0) + 1
+                continue
+            finally:
+                logging.disable(logging.NOTSET)
+            for name, (sg, tg, f, shift_name) in sorted(convs.items()):
+                variants = _arg_variants(name, shift_name, f)
+                if not all_args:
+                    # every argument value is exercised on the in-memory charts with no history; elsewhere one seeded choice
+                    variants = [variants[rng.randrange(len(variants))]]
+                elif base in new_bases and len(variants) > 3:
+                    variants = [variants[0], variants[rng.randrange(1, len(variants))]]
+                for args in variants:
+                    case = dict(proto, converter=name, args=args)
+                    x = rng.random()
+                    if x < 0.15:
+                        case["call"] = "instance"
+                    x = rng.random()
+                    if x < 0.10:
+                        case["again"] = True
+                    elif x < 0.18:
+                        case["then"] = dict(base=rng.choice([b for b in bases[:3] + new_bases if b is not base]), ops=[rng.choice(singles)] if rng.random() < 0.5 else [])
+                    # the converter must leave the source untouched (checked), so one source serves all of them
+                    r = _run_case(case, src=src0)
+                    if isinstance(r, str):
+                        skipped[r[:80]] = skipped.get(r[:80], 0) + 1
+                        continue
+                    rep.case(case, nontrivial=bool(ops))
+                    for dname, on in (("new_source", base in new_bases), ("fixture", base["kind"] == "fixture"), ("through_instance", "call" in case), ("same_source_twice", "again" in case),
+                                      ("other_source_in_between", "then" in case), ("explicit_argument", bool(args)), ("history", bool(ops))):
+                        if on:
+                            dims[dname] = dims.get(dname, 0) + 1
+                    for what, d in r:
+                        rep.fail(what, case, d)
+                        cnt = rep.extra.setdefault("failing_cases_by_clause", {})
+                        cnt[what] = cnt.get(what, 0) + 1
+                        byc = rep.extra.setdefault("failing_converters_by_clause", {})
+                        byc.setdefault(what, [])
+                        if name not in byc[what]:
+                            byc[what].append(name)
         rep.extra["skipped"] = skipped
         rep.extra["unreadable_fixtures"] = unreadable
 
@@ -630,5 +936,5 @@ def _replay(case, what):
 
 for _g in ("osu", "quaver", "sm", "bms", "o2jam"):
     _f = _from_game(_g)
-    bounded("C08", note=f"every converter from {_g}: content, fields, metadata, chart count, source untouched; in-memory and fixture sources after histories of <= 2 (seeded 3) operations")(_f)
+    bounded("C08", note=f"every converter from {_g}: content, fields, metadata, chart count, source untouched, repeated calls; in-memory (incl. empty lists / charts, ties, int-typed, every chart type and optional argument) and fixture sources after histories of <= 2 (seeded 3) operations")(_f)
     replayer(_f.__name__)(_replay)
